@@ -329,9 +329,9 @@ func main() {
 		Assumptions: []string{"views reached through verif hooks; stdout captured through a redirected os.Stdout", "register states hold constants only (documented requirement)"},
 		Cases: func(t string) int {
 			if t == "thorough" {
-				return 40000
+				return 160000
 			}
-			return 2400
+			return 8000
 		},
 		Floor: func(t string) int {
 			if t == "thorough" {
